@@ -16,7 +16,7 @@ func initSignatureParameterNode() {
 			argName := args[1].MustReference().(ast.IdentifierNode)
 
 			var argTypeNode ast.TypeNode
-			if !args[2].IsUndefined() {
+			if !args[2].IsUndefined() && !args[2].IsNil() {
 				argTypeNode = args[2].MustReference().(ast.TypeNode)
 			}
 
